@@ -314,6 +314,8 @@ func C08(p *core.Program, r *core.Report) {
 		}
 	}
 
+	checkPartFileLocking(p, r, mutex)
+
 	// ---- IT: expiry sweep
 	de := p.Func(storagePkg, "Store", "DeleteExpired")
 	for _, c := range core.CallsTo(de, storagePkg+".Store.Delete") {
@@ -390,4 +392,33 @@ func isBoolPhiOfConsts(v ssa.Value) bool {
 		}
 	}
 	return true
+}
+
+// checkPartFileLocking: see the comment inside.
+func checkPartFileLocking(p *core.Program, r *core.Report, mutex string) {
+	if mutex == "" {
+		mutex = "pkg/storage.Store.mutex"
+	}
+	// part files are named by a hash of the fragment's ID and length: a fragment pushed again gets the same file.
+	// Writing and removing part files therefore belongs to the same exclusive region as the record they belong to
+	// (a Delete that unlinks after releasing the lock removes the file a concurrent Push has just written again).
+	if mutex != "" {
+		nFile := 0
+		for _, fn := range p.RepoFuncs() {
+			if fn.Pkg != p.Pkg(storagePkg) || fn.Signature.Recv() == nil || !core.TypeIs(fn.Signature.Recv().Type(), storagePkg, "Store") {
+				continue
+			}
+			lsf := core.ComputeLockSets(fn)
+			for _, m := range []string{"storeBundle", "deleteBundle"} {
+				for _, c := range core.CallsTo(fn, storagePkg+".BundlePart."+m) {
+					nFile++
+					_, held := lsf.Held(c, mutex, true)
+					r.Check(held, fmt.Sprintf("lockset/%s/part-file.%s", fname(fn), m), "part files are written and removed while holding the store mutex, in the region that changes their record", p.Pos(c.Pos()), "", "part file operation without "+mutex+" (held "+lsf.HeldNames(c)+"): it can interleave with a Push/Delete of the same fragment, whose file has the same name")
+				}
+			}
+		}
+		r.Count("part-file operations in Store methods", nFile)
+		r.Min("part-file operations in Store methods", 4)
+	}
+
 }
